@@ -148,7 +148,7 @@ def cppcheck_clang(work, fname, builddir, label=""):
     """-> (status, detail, dump path, stream). status: ok | internal-error | nodump | crash | timeout; stream: the recorded
     clang process (clangstream.read_run) or None"""
     st, detail, dump, prefix = cppcheck_clang1(work, fname, builddir)
-    stream = clangstream.read_run(prefix, label) if STRACE["ok"] and st not in ("timeout",) else None
+    stream = clangstream.read_run(prefix, label) if st not in ("timeout",) else None
     return st, detail, dump, stream
 
 
@@ -157,7 +157,7 @@ def cppcheck_clang1(work, fname, builddir):
     for ext in (".argv", ".fds", ".strace"):
         if os.path.exists(prefix + ext):
             os.unlink(prefix + ext)
-    args = ["--clang=" + (clangstream.TEE if STRACE["ok"] else CLANG), "--dump", "-q"]
+    args = ["--clang=" + clangstream.TEE, "--dump", "-q"]
     if builddir:
         bd = os.path.join(work, "bd")
         shutil.rmtree(bd, ignore_errors=True)
@@ -238,7 +238,8 @@ def run_unit(unit):
 
 def run_all(units):
     vlib.tmproot()
-    check_strace()          # before the pool is forked: the workers inherit the answer
+    if not check_strace():  # before the pool is forked: the workers inherit the answer
+        os.environ["CLANGTEE_NOSTRACE"] = "1"
     with concurrent.futures.ProcessPoolExecutor(NPROC) as ex:
         return list(ex.map(run_unit, units))
 
@@ -329,11 +330,14 @@ def main(tier, seed, replay=None):
         f_link = ex.submit(C08.tlc_judge, link_rows, "refs")
         f_stream = ex.submit(clangstream.validate, streams)
         f_design = ex.submit(clangstream.design)
+        f_config = ex.submit(clangstream.configs, streams)
         bad_runs = f_runs.result()
         bad_dump, nbatches = f_dump.result()
         bad_link = f_link.result()
         bad_stream, stream_stats = f_stream.result()
         design_stats = f_design.result()
+        bad_config, config_stats = f_config.result()
+        bad_stream = bad_config + bad_stream
 
     violations = []
     for b in bad_stream:
@@ -413,8 +417,9 @@ def main(tier, seed, replay=None):
         "name_tokens": tokens, "name_tokens_unobserved": unobserved, "name_tokens_linked": linked,
         "link_violating_programs": sum(1 for b in bad_link if b["verdict"] == "violation"), "link_classes": len(link_classes),
         "abnormal_runs": len(bad_runs), "abnormal_run_classes": len(run_classes), "known_findings": known,
-        "stream_trace": "strace" if STRACE["ok"] else "unavailable: strace cannot trace processes here; the clang processes were not recorded",
+        "stream_trace": "strace" if STRACE["ok"] else "unavailable: strace cannot trace processes here; only argv and descriptors of the clang processes were recorded",
         "stream_violating_runs": len(bad_stream), "ClangStream_design_distinct_states": design_stats,
+        "clang_start_configurations_checked_on_the_design": config_stats,
         "wall_generate_s": round(t_gen, 1), "wall_run_s": round(t_run, 1),
     }
     cov.update(stream_stats)
@@ -447,14 +452,16 @@ def do_replay(path):
         u = {"kind": "scopes", "lang": payload["lang"], "fname": "u.c" if payload["lang"] == "c" else "u.cpp", "text": text, "progs": [("0", row)],
              "table": table, "label": "replay"}
     print(u["text"])
-    check_strace()
+    if not check_strace():
+        os.environ["CLANGTEE_NOSTRACE"] = "1"
     r = run_unit(u)
     print("clang: %s; run a: %s %s; run b: %s %s" % (r["clang"], r["a"], r["asig"], r["b"], r["bsig"]))
     if r["clang"] != "ok":
         return 0
     bad_runs = judge_runs([r])
     bad_stream, _ = clangstream.validate(r["streams"])
-    bad_runs += bad_stream
+    bad_config, _ = clangstream.configs(r["streams"])
+    bad_runs += bad_config + bad_stream
     for b in bad_runs:
         print(json.dumps(b))
     bad_dump, bad_link = {}, []
